@@ -21,7 +21,7 @@ package ignore
 // the codes of an @ignore line: the comma list captured by the expression, trimmed, empty items dropped, upper-cased
 //@ macro func ignCodesOf(text string) string = strings.TrimSpace(reGroup(ignoreRegex, text, 1))
 //@ func parseIgnoreAnnotation
-//@   props C07 C15 C10
+//@   props C07 C15 C17 C10
 //@   fresh
 //@   ensures result != nil ==> reMatches(ignoreRegex, commentText) && len(result.Codes) > 0 && listHas(ignCodesOf(commentText), true, result.Codes[0])
 //@   ensures result == nil ==> !reMatches(ignoreRegex, commentText) || !listAny(ignCodesOf(commentText))
@@ -42,11 +42,13 @@ package ignore
 // Inline comment: some node of the enclosing declaration starts before the comment and ends on the comment's line (or the
 // previous top-level declaration ends on that line); the scope is the comment's line up to the end of the comment.
 //@ func findInlineNode
-//@   props C07 C10
+//@   props C07 C17 C10
 //@   requires fset != nil
 //@   ensures !found ==> start == 0 && end == 0
 //@   ensures found ==> fset.File(comment.Pos()) != nil && start == fset.File(comment.Pos()).LineStart(fset.Position(comment.Pos()).Line) && end == comment.End()
 //@   ensures found ==> (exists d int :: 0 <= d && d < len(file.Decls) && ((file.Decls[d].End() <= comment.Pos() && fset.Position(file.Decls[d].End()).Line == fset.Position(comment.Pos()).Line) || (exists n ast.Node :: n != nil && inspIn(n, file.Decls[d]) && n.Pos() < comment.Pos() && fset.Position(n.End()).Line == fset.Position(comment.Pos()).Line)))
+// a comment that directly follows a top-level declaration on that declaration's last line is inline (partial completeness)
+//@   ensures fset.File(comment.Pos()) != nil && (exists d int :: 0 <= d && d < len(file.Decls) && file.Decls[d].End() <= comment.Pos() && fset.Position(file.Decls[d].End()).Line == fset.Position(comment.Pos()).Line && (d + 1 >= len(file.Decls) || comment.Pos() < file.Decls[d+1].Pos())) ==> found
 //@   assigns nothing
 //@   at call ast.Inspect#1 invariant hasCodeOnLine ==> (exists n ast.Node :: n != nil && inspIn(n, decl) && n.Pos() < commentPos && fset.Position(n.End()).Line == commentLine)
 
@@ -71,7 +73,7 @@ package ignore
 // as language inclusions under C15, and parseIgnoreAnnotation == nil, whose contract says "not an @ignore line").
 //@ func ReadIgnoreAnnotations
 //@   merge
-//@   props C07 C08 C14 C10
+//@   props C07 C08 C14 C17 C10
 //@   requires cfg != nil && pass.Fset != nil
 //@   fresh
 //@   assigns nothing
